@@ -1513,3 +1513,91 @@ package mcp
 //@   trusted
 //@   pure
 //@
+// ---- C03 — the parameter shapes of prompts/get, resources/read, resources/subscribe, resources/unsubscribe and
+// completion/complete, the same way as tools/call: a wrong shape is -32602 with the request's id, an unknown
+// name is -32601, never a Go error, and the user's handler runs only for a well-formed request on a known name
+//@ ghost stable promptcalls int
+//@ ghost stable resourcecalls int
+//@ pred strParamOK(req *JSONRPCRequest, key string) = istype(req.Params, map[string]interface{}) && istype(req.Params.(map[string]interface{})[key], string)
+//@
+//@ callspec promptHandler
+//@   counted promptcalls
+//@   modifies *, promptcalls
+//@
+//@ callspec resourcesHandler
+//@   counted resourcecalls
+//@   modifies *, resourcecalls
+//@
+//@ func promptManager.handleGetPrompt
+//@   modifies *, promptcalls
+//@   ensures[C03 never-a-go-error] ret1 == nil
+//@   ensures[C03,C14 missing-or-mistyped-params-or-name-are-invalid-params] !old(strParamOK(req, "name")) ==> isErr(ret, ErrCodeInvalidParams, old(req.ID)) && promptcalls == old(promptcalls)
+//@   ensures[C03,C12 unknown-prompt-is-method-not-found-and-nothing-runs] old(strParamOK(req, "name")) && !atlock(req.Params.(map[string]interface{})["name"].(string) in m.prompts) ==> isErr(ret, ErrCodeMethodNotFound, old(req.ID)) && promptcalls == old(promptcalls)
+//@   ensures[C01,C03 the-prompt-handler-runs-at-most-once] promptcalls <= old(promptcalls) + 1
+//@
+//@ func resourceManager.handleReadResource
+//@   modifies *, resourcecalls
+//@   ensures[C03 never-a-go-error] ret1 == nil
+//@   ensures[C03,C14 missing-or-mistyped-params-or-uri-are-invalid-params] !old(strParamOK(req, "uri")) ==> isErr(ret, ErrCodeInvalidParams, old(req.ID)) && resourcecalls == old(resourcecalls)
+//@   ensures[C03,C12 unknown-resource-is-method-not-found-and-nothing-runs] old(strParamOK(req, "uri")) && !atlock(req.Params.(map[string]interface{})["uri"].(string) in m.resources) ==> isErr(ret, ErrCodeMethodNotFound, old(req.ID)) && resourcecalls == old(resourcecalls)
+//@   ensures[C01,C03 the-resource-handler-runs-exactly-once-for-a-registered-resource] old(strParamOK(req, "uri")) && atlock(req.Params.(map[string]interface{})["uri"].(string) in m.resources) ==> resourcecalls == old(resourcecalls) + 1
+//@
+//@ func resourceManager.handleSubscribe
+//@   ensures[C03 never-a-go-error] ret1 == nil
+//@   ensures[C03 missing-or-mistyped-params-or-uri-are-invalid-params] !old(strParamOK(req, "uri")) ==> isErr(ret, ErrCodeInvalidParams, old(req.ID))
+//@
+//@ func resourceManager.handleUnsubscribe
+//@   ensures[C03 never-a-go-error] ret1 == nil
+//@   ensures[C03 missing-or-mistyped-params-or-uri-are-invalid-params] !old(strParamOK(req, "uri")) ==> isErr(ret, ErrCodeInvalidParams, old(req.ID))
+//@
+//@ func promptManager.handleCompletionComplete
+//@   ensures[C03 never-a-go-error] ret1 == nil
+//@   ensures[C03 params-that-are-not-an-object-are-invalid-params] !old(istype(req.Params, map[string]interface{})) ==> isErr(ret, ErrCodeInvalidParams, old(req.ID))
+//@   ensures[C03 an-answer-is-always-an-error-object-with-the-requests-id] istype(ret, *JSONRPCError) && ret.(*JSONRPCError) != nil && ret.(*JSONRPCError).ID == old(req.ID)
+//@
+// ---- C13 — prompts/list and resources/list evaluate their filter with this request's context, on a slice
+// allocated for this request (same pattern as tools/list)
+//@ func promptManager.getPrompts
+//@   loop 1 invariant[C13] isfresh(prompts)
+//@   ensures[C13 every-list-request-gets-a-slice-of-its-own] isfresh(result)
+//@ func resourceManager.getResources
+//@   loop 1 invariant[C13] isfresh(orderedResources)
+//@   ensures[C13 every-list-request-gets-a-slice-of-its-own] isfresh(result)
+//@ func promptManager.handleListPrompts
+//@   before call promptListFilter#1 assert[C13 list-filter-is-evaluated-with-this-requests-context] arg0 == ctx
+//@   before call promptListFilter#1 assert[C13 list-filter-gets-a-slice-of-its-own] isfresh(arg1)
+//@ func resourceManager.handleListResources
+//@   before call resourceListFilter#1 assert[C13 list-filter-is-evaluated-with-this-requests-context] arg0 == ctx
+//@   before call resourceListFilter#1 assert[C13 list-filter-gets-a-slice-of-its-own] isfresh(arg1)
+//@
+// ---- C13 — legacy SSE server: what a POSTed message is processed with is built from this HTTP request's
+// context (through the configured context function) and carries the session the message was posted to
+//@ callspec contextFunc
+//@   function
+//@
+//@ func SSEServer.handleMessage
+//@   before call handleRequestMessage#1 assert[C13 request-context-derives-from-this-http-request] derives(arg1, s.contextFunc != nil ? contextFunc(s.contextFunc, r.Context(), r) : r.Context())
+//@   before call handleRequestMessage#1 assert[C13 request-context-carries-the-posting-session] ctxval(arg1, box(sessionContextKey)) == asany(session) && ctxval(arg1, box(clientSessionKey)) == asany(session) && arg3 == session
+//@   before call handleNotificationMessage#1 assert[C13 notification-context-derives-from-this-http-request] derives(arg1, s.contextFunc != nil ? contextFunc(s.contextFunc, r.Context(), r) : r.Context())
+//@   before call handleNotificationMessage#1 assert[C13 notification-context-carries-the-posting-session] ctxval(arg1, box(sessionContextKey)) == asany(session) && ctxval(arg1, box(clientSessionKey)) == asany(session) && arg3 == session
+//@   before call handleResponseMessage#1 assert[C13,C05 an-answer-is-processed-under-the-posting-session] arg3 == session
+//@
+//@ func SSEServer.handleRequestMessage
+//@   before call processRequestAsync#1 assert[C13 the-decoded-request-is-processed-with-this-messages-context-and-session] arg1 == ctx && arg3 == session
+//@
+//@ func SSEServer.processRequestAsync
+//@   before call handleRequest#1 assert[C13 handler-context-extends-this-requests-context] derives(arg1, ctx) && ctxval(arg1, box(sessionContextKey)) == ctxval(ctx, box(sessionContextKey))
+//@   before call handleRequest#1 assert[C13 handler-gets-this-requests-session] arg3 == asany(session)
+//@
+// ---- C03 — legacy SSE message endpoint: every POSTed message is answered with a status, a wrong verb with 405,
+// a missing / unknown session with an error status, an undecodable body with a JSON-RPC error body
+//@ func SSEServer.handleSessionError
+//@   modifies *, status(w), errlogs
+//@   ensures[C03 a-session-error-is-an-error-status] (old(status(w)) == 0 ==> status(w) == 400 || status(w) == 404 || status(w) == 500) && status(w) != 0
+//@ func SSEServer.writeJSONRPCError
+//@   modifies *, status(w), hval, errlogs
+//@   ensures[C03 the-error-body-is-written] status(w) != 0
+//@ func SSEServer.handleMessage
+//@   ensures[C03 every-posted-message-gets-a-status] status(w) != 0
+//@   ensures[C03 only-post-is-allowed-on-the-message-endpoint] old(status(w)) == 0 && old(r.Method) != "POST" ==> status(w) == 405
+//@
